@@ -72,6 +72,9 @@ def run(R):
         check_who_may_write(c, repo, R)
     with R.clause('D4', 'CTRL', floor=6, desc='control bytes: one delegated ptyprocess call each, the byte is logged') as c:
         check_control(c, repo)
+    with R.clause('D6', 'PAIR', floor=2, desc='socket: the temporary read timeout never leaks into sendall (restored on every exit of the read)') as c:
+        from .c05 import check_socket_timeout
+        check_socket_timeout(c, repo, restore=True)
     with R.clause('D5', 'CONST', floor=2, desc='text in bytes mode is UTF-8 encoded, bytes pass unchanged') as c:
         f = repo.func('spawnbase:SpawnBase._coerce_send_string')
         encs = [k for k in calls_in(f.node) if callee_last(k) == 'encode']
@@ -213,6 +216,11 @@ def check_write(c, repo, cl):
         loops = [n for n in iter_nodes(f.node) if isinstance(n, ast.For)]
         ok = len(loops) == 1 and is_name(loops[0].iter, f.params[1]) and isinstance(loops[0].target, ast.Name)
         c.check(ok, f, loops[0] if loops else None, 'writelines iterates the caller\'s sequence directly (unfiltered, in order)', kind='ast', tag='writelines-iter')
+        # the argument may be a one-shot iterable (a generator): it is consumed by that loop and by nothing else
+        uses = [x for x in ast.walk(f.node) if isinstance(x, ast.Name) and x.id == f.params[1] and isinstance(x.ctx, ast.Load)]
+        c.check(len(uses) == 1, f, uses[1] if len(uses) > 1 else (loops[0] if loops else None),
+                'the iterable is consumed exactly once, by the write loop (a generator passed to writelines is exhausted by any earlier pass over it)',
+                witness='%d reads of `%s`' % (len(uses), f.params[1]), kind='flow', tag='writelines-single-pass')
         if ok:
             g = f.cfg
             v = loops[0].target.id
@@ -294,6 +302,8 @@ def check_control(c, repo):
 
 
 MUTANTS = [
+    ('writelines-validates-first', 'pty_spawn', "        for s in sequence:\n            self.write(s)", "        if not all(isinstance(s, self.allowed_string_types) for s in sequence):\n            raise TypeError('strings only')\n        for s in sequence:\n            self.write(s)", 'D2'),
+    ('socket-timeout-leaks-into-send', 'socket_pexpect', "        try:\n            self.socket.settimeout(timeout)\n            yield\n        finally:\n            self.socket.settimeout(saved_timeout)", "        self.socket.settimeout(timeout)\n        yield\n        self.socket.settimeout(saved_timeout)", 'D6'),
     ('send-strip', 'pty_spawn', "        b = self._encoder.encode(s, final=False)\n        return os.write(self.child_fd, b)", "        b = self._encoder.encode(s.rstrip('\\x00'), final=False)\n        return os.write(self.child_fd, b)", 'D1'),
     ('send-log-after', 'fdpexpect', "        s = self._coerce_send_string(s)\n        self._log(s, 'send')\n\n        b = self._encoder.encode(s, final=False)\n        return os.write(self.child_fd, b)", "        s = self._coerce_send_string(s)\n\n        b = self._encoder.encode(s, final=False)\n        n = os.write(self.child_fd, b)\n        self._log(s, 'send')\n        return n", 'D1'),
     ('send-final-true', 'popen_spawn', "        b = self._encoder.encode(s, final=False)\n        if PY3:", "        b = self._encoder.encode(s, final=True)\n        if PY3:", 'D1'),
